@@ -117,10 +117,23 @@ def grep_forbidden():
 
 
 def theorems_of(module):
-    """Names of the theorems stated in a Props module (namespace Ari)."""
+    """Fully qualified names of the theorems stated in a Props module."""
     path = os.path.join(LEAN, *module.split(".")) + ".lean"
     code = strip_comments(open(path, encoding="utf-8").read())
-    return re.findall(r"^theorem\s+([A-Za-z0-9_'.]+)", code, re.M)
+    stack, out = [], []
+    for line in code.split("\n"):
+        m = re.match(r"^namespace\s+([A-Za-z0-9_.]+)", line)
+        if m:
+            stack.append(m.group(1))
+            continue
+        m = re.match(r"^end\s+([A-Za-z0-9_.]+)", line)
+        if m and stack and stack[-1] == m.group(1):
+            stack.pop()
+            continue
+        m = re.match(r"^theorem\s+([A-Za-z0-9_'.]+)", line)
+        if m:
+            out.append(".".join(stack + [m.group(1)]))
+    return out
 
 
 def lake_build(targets, timeout=3000):
@@ -159,7 +172,7 @@ def audit_axioms(module, names):
     os.makedirs(d, exist_ok=True)
     path = os.path.join(d, module.replace(".", "_") + ".lean")
     with open(path, "w") as f:
-        f.write("import %s\nopen Ari\n" % module)
+        f.write("import %s\n" % module)
         for n in names:
             f.write("#print axioms %s\n" % n)
     p = subprocess.run(["lake", "env", "lean", path], cwd=LEAN, stdout=subprocess.PIPE,
